@@ -15,7 +15,7 @@ def is_nan(x):
     return isinstance(x, float) and x != x
 
 
-SERIES_T = ["hampel", "imputer-mean", "imputer-ffill", "imputer-linear", "imputer-drift", "imputer-placeholder", "log", "boxcox-pearsonr", "adaptor", "detrender", "deseasonalizer", "passthrough", "cosine"]
+SERIES_T = ["hampel", "imputer-mean", "imputer-ffill", "imputer-linear", "imputer-drift", "imputer-placeholder", "log", "boxcox-pearsonr", "adaptor", "detrender", "deseasonalizer", "deseasonalizer-mult", "passthrough", "cosine"]
 FORECASTERS = ["naive-last", "naive-mean", "naive-drift", "naive-drift-failing-predict", "poly", "sm-adapter", "reduce-recursive", "reduce-direct", "ensemble", "pipeline"]
 PANEL_T = ["padding", "truncation", "paa", "tabularizer", "concatenator", "interval", "sliding", "features", "pca", "random-interval", "derivative-slope", "plateau"]
 
@@ -92,7 +92,7 @@ class C12(Harness):
         ov = {}
         w = cell["which"]
         hold = self.__dict__.setdefault("_hold", {})
-        if w == "deseasonalizer":
+        if w in ("deseasonalizer", "deseasonalizer-mult"):
             def seasonal_decompose(z, model=None, period=None, filt=None, two_sided=True, extrapolate_trend=0):
                 W = hold[kind]["W"]
                 sig = hold[kind]["sigma"]
@@ -152,8 +152,11 @@ class C12(Harness):
             if n != 5:
                 ctx.assume(False)
             inp["y"][1] = float("nan")
-        if w == "deseasonalizer":
+        if w in ("deseasonalizer", "deseasonalizer-mult"):
             inp["sigma"] = fresh_reals(ctx, "sig", 2)
+            if w.endswith("mult"):
+                for s_ in inp["sigma"]:
+                    ctx.assume(s_ != 0)
         if w == "hampel":
             inp["n_sigma"] = ctx.fresh_real("n_sigma")
             ctx.assume(inp["n_sigma"] > 0)
@@ -248,6 +251,8 @@ class C12(Harness):
                 t = W.load("sktime.transformations.series.detrend._detrend").Detrender()
             elif w == "deseasonalizer":
                 t = W.load("sktime.transformations.series.detrend._deseasonalize").Deseasonalizer(sp=2)
+            elif w == "deseasonalizer-mult":
+                t = W.load("sktime.transformations.series.detrend._deseasonalize").Deseasonalizer(sp=2, model="multiplicative")
             elif w == "passthrough":
                 t = W.load("sktime.transformations.series.compose").OptionalPassthrough(T(tag=1))
             else:
@@ -264,7 +269,7 @@ class C12(Harness):
             mid = self._snapshot(t)
             r2 = t.transform(z)
             out["r2"] = pack(r2)
-            if hasattr(t, "inverse_transform") and w in ("log", "detrender", "deseasonalizer", "passthrough", "adaptor", "boxcox-pearsonr"):
+            if hasattr(t, "inverse_transform") and w in ("log", "detrender", "deseasonalizer", "deseasonalizer-mult", "passthrough", "adaptor", "boxcox-pearsonr"):
                 rin = pack(r1)
                 t.inverse_transform(r1)
                 out["r1_after_inverse"] = pack(r1)
